@@ -18,6 +18,13 @@ D2 verdict fields are order-free functions of merged state; finalisation writes 
 D3 verdict decision trees (if statements / conditional expressions, roles found by pattern, tests outside the table
    treated as free booleans), roll-up counter zeroed per call, set-difference directions; the verdict classes are plain
    records and no finaliser rewrites a built verdict (the table is decided on the constructor arguments).
+D4 interface with the producer (what the consumer's rules take for granted about a trace the runtime wrote): the
+   launch-key fields the aggregator reads have the same origin in the run_space_end record as in the run_space_start
+   record of the launch (record builders found by their constant record_type, the value followed up through every
+   function that only hands it down - an omitted argument counts as the parameter's default - to the function that
+   emits both edges, compared there by reaching definitions on paths through the start call); a class that writes
+   trace records never has two open handles on the configured path itself (line order of a file = emission order,
+   the reason why only the rows with the start record seen are constrained in D3).
 """
 from __future__ import annotations
 
@@ -105,6 +112,7 @@ class registration_keys:
                     ctors_of_local.setdefault(tg.id, []).extend(cs)
         self.by_ctor: Dict[int, Set[str]] = {}
         self.all: Set[str] = set()
+        self.key_exprs: List[ast.AST] = []
 
         def key_names(k: ast.AST) -> Set[str]:
             names = {x.id for x in ast.walk(k) if isinstance(x, ast.Name)}
@@ -134,6 +142,7 @@ class registration_keys:
                 continue  # a counter / scalar entry, not an aggregate
             names = key_names(k)
             self.all |= names
+            self.key_exprs.append(k)
             for c in cs:
                 self.by_ctor.setdefault(id(c), set()).update(names)
 
@@ -1813,6 +1822,308 @@ def instantiate(repo: Repo, cls: ast.ClassDef, hmod, handler: ast.AST, call: ast
     return new, rec
 
 
+# ---------------------------------------------------------------------------------------------------------
+# D4: what the producer must agree on with the aggregator (interface conditions)
+# ---------------------------------------------------------------------------------------------------------
+
+RS_EDGES = ("run_space_start", "run_space_end")
+
+
+def record_fields_read(exprs: List[ast.AST], rec: str) -> Set[str]:
+    """Constant field names read from the record (``rec.get("k")`` / ``rec["k"]``) anywhere in *exprs*."""
+    out: Set[str] = set()
+    for e in exprs:
+        for x in ast.walk(e):
+            if isinstance(x, ast.Subscript) and isinstance(x.value, ast.Name) and x.value.id == rec and isinstance(x.slice, ast.Constant) and isinstance(x.slice.value, str):
+                out.add(x.slice.value)
+            elif isinstance(x, ast.Call) and isinstance(x.func, ast.Attribute) and x.func.attr == "get" and isinstance(x.func.value, ast.Name) and x.func.value.id == rec and x.args and isinstance(x.args[0], ast.Constant) and isinstance(x.args[0].value, str):
+                out.add(x.args[0].value)
+    return out
+
+
+def record_builders(repo: Repo, T: str, skip_pkg: str) -> List[Tuple[object, str, ast.AST, ast.AST, Dict[str, List[ast.AST]]]]:
+    """Functions of the package (outside the aggregation package) that build a record of type *T*: a dict literal /
+    ``dict(..)`` call whose ``record_type`` is the constant T.  Gives (module, qualname, function, literal, field ->
+    value expressions) with later ``<holder>[field] = value`` stores added."""
+    out = []
+    for mod, qn, fn in repo.all_functions():
+        if mod.rel.startswith(skip_pkg):
+            continue
+        for n in walk_no_nested(fn):
+            items: Optional[Dict[str, List[ast.AST]]] = None
+            if isinstance(n, ast.Dict):
+                items = {k.value: [v] for k, v in zip(n.keys, n.values) if isinstance(k, ast.Constant) and isinstance(k.value, str)}
+            elif isinstance(n, ast.Call) and call_name(n) == "dict" and not n.args:
+                items = {k.arg: [k.value] for k in n.keywords if k.arg}
+            tv = (items or {}).get(TYPE_FIELD)
+            if not (tv and isinstance(tv[0], ast.Constant) and tv[0].value == T):
+                continue
+            par = parent(n)
+            holder = None
+            if isinstance(par, ast.Assign) and len(par.targets) == 1 and isinstance(par.targets[0], ast.Name):
+                holder = par.targets[0].id
+            elif isinstance(par, ast.AnnAssign) and isinstance(par.target, ast.Name):
+                holder = par.target.id
+            if holder is not None:
+                for st in walk_no_nested(fn):
+                    if isinstance(st, ast.Assign):
+                        for t in st.targets:
+                            if isinstance(t, ast.Subscript) and isinstance(t.value, ast.Name) and t.value.id == holder and isinstance(t.slice, ast.Constant) and isinstance(t.slice.value, str):
+                                items.setdefault(t.slice.value, []).append(st.value)
+            out.append((mod, qn, fn, n, items))
+    return out
+
+
+def _own_params(fn: ast.AST) -> List[str]:
+    a = fn.args
+    return [p.arg for p in a.posonlyargs + a.args + a.kwonlyargs]
+
+
+def _rebound(fn: ast.AST, name: str) -> bool:
+    return any(isinstance(x, ast.Name) and x.id == name and isinstance(x.ctx, (ast.Store, ast.Del)) for x in walk_no_nested(fn))
+
+
+class _Terminal:
+    """Where the value of a record field stops being a parameter handed down: expression *expr* in function *fn*
+    (at *call*, the call that starts the hand-down; None when the expression sits in the record builder itself)."""
+    def __init__(self, mod, qn: str, fn: ast.AST, call: Optional[ast.Call], expr: ast.AST, default_of: Optional[str], chain: Tuple[str, ...]) -> None:
+        self.mod, self.qn, self.fn, self.call, self.expr, self.default_of, self.chain = mod, qn, fn, call, expr, default_of, chain
+
+
+def field_terminals(repo: Repo, mod, qn: str, fn: ast.AST, e: ast.AST, call: Optional[ast.Call], chain: Tuple[str, ...], seen: Set[Tuple[int, str]], depth: int = 0) -> List[_Terminal]:
+    """Follow a record field upwards through the functions that only hand it down (the value is one of their own
+    parameters): every caller's argument for that parameter - the parameter's default when the caller omits it."""
+    if isinstance(e, ast.Name) and e.id in _own_params(fn) and not _rebound(fn, e.id) and depth < 6:
+        if (id(fn), e.id) in seen:
+            return []
+        seen.add((id(fn), e.id))
+        a = fn.args
+        default_nodes = [d for d in list(a.defaults) + list(a.kw_defaults) if d is not None]
+        out: List[_Terminal] = []
+        for cm, cqn, cfn in repo.all_functions():
+            for c in calls_in(cfn):
+                nm = c.func.attr if isinstance(c.func, ast.Attribute) else c.func.id if isinstance(c.func, ast.Name) else None
+                if nm != fn.name or cfn is fn:
+                    continue
+                if _is_method(fn) != isinstance(c.func, ast.Attribute):
+                    continue
+                b = bind_call(fn, c)
+                if b is None or e.id not in b:
+                    continue
+                arg = b[e.id]
+                if any(arg is d for d in default_nodes):
+                    out.append(_Terminal(cm, cqn, cfn, c, arg, f"{qn}({e.id}={ast.unparse(arg)})", chain + (qn,)))
+                else:
+                    out += field_terminals(repo, cm, cqn, cfn, arg, c, chain + (qn,), seen, depth + 1)
+        return out
+    return [_Terminal(mod, qn, fn, call, e, None, chain)]
+
+
+def _value_origins(fn: ast.AST, g, e: ast.AST, at: List[int], through: Optional[List[int]] = None, depth: int = 0) -> Set[str]:
+    """Dumps of the expressions the value of *e* comes from at CFG nodes *at* (locals resolved through their reaching
+    definitions; with *through*, only definitions that lie on a path through one of those nodes).  ``?..`` marks a
+    definition that is not a plain assignment."""
+    from ..cfg import reaching_defs
+
+    if isinstance(e, ast.IfExp):
+        return _value_origins(fn, g, e.body, at, through, depth + 1) | _value_origins(fn, g, e.orelse, at, through, depth + 1)
+    if isinstance(e, ast.NamedExpr):
+        return _value_origins(fn, g, e.value, at, through, depth + 1)
+    if not isinstance(e, ast.Name) or depth > 5:
+        return {_d(e)}
+    defs = {d.id: d for n in at for d in reaching_defs(g, e.id, n)}
+    if through is not None and defs:
+        after = set(g.reach([t for s_ in through for t, _l in g.succ[s_]]))
+        before = {d.id for s_ in through for d in reaching_defs(g, e.id, s_)}
+        defs = {i: d for i, d in defs.items() if i in after or i in before}
+    if not defs:
+        return {_d(e)}  # a parameter / module-level name
+    out: Set[str] = set()
+    for d in defs.values():
+        a = d.ast
+        val = None
+        if isinstance(a, ast.Assign) and len(a.targets) == 1 and isinstance(a.targets[0], ast.Name):
+            val = a.value
+        elif isinstance(a, ast.AnnAssign) and isinstance(a.target, ast.Name):
+            val = a.value
+        if val is None:
+            out.add("?" + norm(a, 60))
+        else:
+            out |= _value_origins(fn, g, val, [d.id], None, depth + 1)
+    return out
+
+
+def check_launch_key_agreement(R: Report, rule: str, repo: Repo, key_fields: Dict[str, Set[str]]) -> None:
+    """The aggregator merges run_space_start and run_space_end into the aggregate stored under the key it reads from
+    the record.  Both edges of one launch meet in one aggregate only when the producer writes the same values into the
+    key fields of both records: followed from the record builders up to the function that emits both edges."""
+    from ..cfg import CFG
+
+    ks, ke = key_fields.get(RS_EDGES[0], set()), key_fields.get(RS_EDGES[1], set())
+    if not ks or not ke:
+        raise AnalysisError(f"launch key fields read by the run_space_start / run_space_end merges not found ({sorted(ks)} / {sorted(ke)})")
+    R.check(ks == ke, rule, AGG, f"{CLS}.ingest", "run_space_start and run_space_end are merged under the same key fields", f"the launch aggregate is looked up by {sorted(ks)} for run_space_start but by {sorted(ke)} for run_space_end: the two edges of a launch do not meet in one aggregate", 0, what_ok=f"key fields {sorted(ks)}")
+    pkg = AGG.rsplit("/", 1)[0] + "/"
+    terms: Dict[str, Dict[str, List[_Terminal]]] = {T: {} for T in RS_EDGES}
+    builders_seen = 0
+    for T in RS_EDGES:
+        for mod, qn, fn, lit, items in record_builders(repo, T, pkg):
+            builders_seen += 1
+            repo.consulted.add(mod.rel)
+            for k in sorted(ks | ke):
+                vals = items.get(k)
+                if not vals:
+                    R.violation(rule, mod.rel, qn, norm(lit, 90), f"the {T} record is built without the field `{k}` the aggregator reads as part of the launch key: the record is dropped (or merged under another key) and the launch never shows this lifecycle edge", getattr(lit, "lineno", 0))
+                    continue
+                for v in vals:
+                    terms[T].setdefault(k, []).extend(field_terminals(repo, mod, qn, fn, v, None, (), set()))
+    if builders_seen < 2:
+        raise AnalysisError("no function that builds run_space_start / run_space_end records found (dict with a constant record_type)")
+    cfgs: Dict[int, object] = {}
+    compared = 0
+    for k in sorted(ks | ke):
+        starts, ends = terms[RS_EDGES[0]].get(k, []), terms[RS_EDGES[1]].get(k, [])
+        for te in ends:
+            repo.consulted.add(te.mod.rel)
+            mates = [ts for ts in starts if ts.fn is te.fn]
+            site = te.call if te.call is not None else te.expr
+            line = getattr(site, "lineno", 0)
+            stmt_txt = norm(stmt_of(site) if not isinstance(site, ast.stmt) else site, 110)
+            if not mates:
+                if isinstance(te.expr, ast.Constant):
+                    R.violation(rule, te.mod.rel, te.qn, stmt_txt, f"`{k}` of every run_space_end record is the constant {ast.unparse(te.expr)}{' (default ' + te.default_of + ')' if te.default_of else ''}, while run_space_start carries the launch's own value: the end edge of a launch whose `{k}` differs is merged into another launch aggregate - the finished launch stays `partial / missing_run_space_end` and a phantom launch with only an end edge appears", line)
+                    compared += 1
+                continue
+            g = cfgs.get(id(te.fn))
+            if g is None:
+                g = cfgs[id(te.fn)] = CFG(te.fn)
+            for ts in mates:
+                compared += 1
+                if ts.call is None or te.call is None:
+                    same = _d(ts.expr) == _d(te.expr)
+                    so, eo = {_d(ts.expr)}, {_d(te.expr)}
+                else:
+                    s_nodes = g.nodes_for(stmt_of(ts.call))
+                    e_nodes = g.nodes_for(stmt_of(te.call))
+                    if not s_nodes or not e_nodes:
+                        raise AnalysisError(f"{te.qn}: no CFG node for the calls that emit the run-space edges")
+                    so = {_d(ts.expr)} if ts.default_of else _value_origins(te.fn, g, ts.expr, s_nodes)
+                    eo = {_d(te.expr)} if te.default_of else _value_origins(te.fn, g, te.expr, e_nodes, through=s_nodes)
+                    unknown = sorted(x for x in so | eo if x.startswith("?"))
+                    if unknown and so != eo:
+                        raise AnalysisError(f"{te.qn}: the value of `{k}` handed to the run-space edges is bound in a way that is not understood: {unknown[0][1:]}")
+                    same = so == eo
+                why = ""
+                if not same:
+                    src = f"falls back to the default `{te.default_of}` because the call leaves it out" if te.default_of else f"comes from `{ast.unparse(te.expr)}`"
+                    ssrc = f"the default `{ts.default_of}`" if ts.default_of else f"`{ast.unparse(ts.expr)}`"
+                    why = f"`{k}` of the run_space_end record {src}, while the run_space_start record of the same launch gets {ssrc}: the aggregator keys the launch by {sorted(ks)}, so for a launch where the two differ (e.g. a retry with attempt 2) the end edge is merged into another aggregate - the complete launch is judged `partial / missing_run_space_end` and a phantom launch with only an end edge appears"
+                R.check(same, rule, te.mod.rel, te.qn, f"{k}: {stmt_txt}", why, line, what_ok="same origin as in the start record")
+    if not compared:
+        raise AnalysisError("no function that emits both run_space_start and run_space_end was found: the key agreement of the two edges cannot be decided")
+
+
+def _self_attr(e: ast.AST, me: str) -> Optional[str]:
+    return e.attr if isinstance(e, ast.Attribute) and isinstance(e.value, ast.Name) and e.value.id == me else None
+
+
+def check_one_handle_per_file(R: Report, rule: str, repo: Repo) -> None:
+    """A prefix of a trace file is a prefix of what the runtime emitted only if the lines reach the file in emission
+    order.  Writers that keep several open handles (run records / run-space lifecycle records) must not have two of
+    them on the same path: each handle has its own buffer, so lines written through the second one land after
+    whatever the first one flushed earlier.  Decided per class that builds trace records: every ``open`` whose result
+    (in a writing mode) is kept in an attribute of the instance, and whether its path can be the configured path itself
+    (not a file name derived from it)."""
+    from ..cfg import CFG, reaching_defs
+
+    pkg = AGG.rsplit("/", 1)[0] + "/"
+    classes: Dict[int, Tuple[object, ast.ClassDef]] = {}
+    for T in WANTED:
+        for mod, _qn, fn, _lit, _items in record_builders(repo, T, pkg):
+            c = parent(fn)
+            if isinstance(c, ast.ClassDef):
+                classes[id(c)] = (mod, c)
+    if not classes:
+        raise AnalysisError("no class that builds trace records (dict with a constant record_type) found")
+    for mod, c in classes.values():
+        repo.consulted.add(mod.rel)
+        methods = [m for m in c.body if isinstance(m, FuncNode) and m.args.args]
+        sites = []  # (method, stmt, attr, open call, path operand)
+        for m in methods:
+            me = m.args.args[0].arg
+            for st in walk_no_nested(m):
+                if not isinstance(st, (ast.Assign, ast.AnnAssign)) or st.value is None:
+                    continue
+                tg = st.targets if isinstance(st, ast.Assign) else [st.target]
+                attrs = [a for a in (_self_attr(t, me) for t in tg) if a is not None]
+                if not attrs:
+                    continue
+                for oc in [x for x in ast.walk(st.value) if isinstance(x, ast.Call)]:
+                    if isinstance(oc.func, ast.Attribute) and oc.func.attr == "open" and not (isinstance(oc.func.value, ast.Name) and oc.func.value.id in ("io", "os", "codecs", "gzip", "bz2", "lzma")):
+                        operand = oc.func.value
+                    elif (call_name(oc) or "").split(".")[-1] == "open" and oc.args:
+                        operand = oc.args[0]
+                    else:
+                        continue
+                    # a handle that is written through: the mode (2nd positional of open(), 1st of Path.open()) is not read-only
+                    is_method_open = isinstance(oc.func, ast.Attribute) and operand is oc.func.value
+                    pos_mode = (oc.args[0] if oc.args else None) if is_method_open else (oc.args[1] if len(oc.args) > 1 else None)
+                    mode = kwarg(oc, "mode") or pos_mode
+                    if mode is None or (isinstance(mode, ast.Constant) and isinstance(mode.value, str) and not set(mode.value) & set("awx+")):
+                        continue
+                    sites.append((m, st, attrs[0], oc, operand))
+        bare_sites: Dict[str, List[Tuple[ast.AST, ast.AST, str]]] = {}
+        for m, st, attr, oc, operand in sites:
+            me = m.args.args[0].arg
+            g = CFG(m)
+            nodes = g.nodes_for(st)
+            if not nodes:
+                raise AnalysisError(f"{c.name}.{m.name}: no CFG node for {norm(st)}")
+            bare: Set[str] = set()
+
+            def walk(e: ast.AST, at: List[int], depth: int = 0) -> None:
+                """Self attributes the opened path may be *itself* (not a path derived by joining / renaming)."""
+                if depth > 6:
+                    return
+                a_ = _self_attr(e, me)
+                if a_ is not None:
+                    bare.add(a_)
+                    return
+                if isinstance(e, ast.IfExp):
+                    walk(e.body, at, depth + 1)
+                    walk(e.orelse, at, depth + 1)
+                elif isinstance(e, ast.BoolOp):
+                    for v in e.values:
+                        walk(v, at, depth + 1)
+                elif isinstance(e, ast.Call) and (call_name(e) or "").split(".")[-1] in ("Path", "str", "fspath", "PurePath") and len(e.args) == 1 and not e.keywords:
+                    walk(e.args[0], at, depth + 1)
+                elif isinstance(e, ast.Call) and isinstance(e.func, ast.Attribute) and e.func.attr in ("resolve", "absolute", "expanduser") and not e.args:
+                    walk(e.func.value, at, depth + 1)
+                elif isinstance(e, ast.Name):
+                    for d in {d.id: d for n in at for d in reaching_defs(g, e.id, n)}.values():
+                        a2 = d.ast
+                        if isinstance(a2, ast.Assign) and len(a2.targets) == 1 and isinstance(a2.targets[0], ast.Name):
+                            walk(a2.value, [d.id], depth + 1)
+                        elif isinstance(a2, ast.AnnAssign) and isinstance(a2.target, ast.Name) and a2.value is not None:
+                            walk(a2.value, [d.id], depth + 1)
+
+            walk(operand, nodes)
+            for b in sorted(bare):
+                bare_sites.setdefault(b, []).append((m, st, attr))
+        # decide after all sites are known
+        for m, st, attr, oc, operand in sites:
+            clash = []
+            for b, lst in bare_sites.items():
+                if any(s_ is st for _m, s_, _a in lst):
+                    clash += [(b, m2, a2) for m2, s2, a2 in lst if s2 is not st and a2 != attr]
+            what = ""
+            if clash:
+                b, m2, a2 = clash[0]
+                what = f"`self.{attr}` is opened on `self.{b}` itself, and so is `self.{a2}` (in {c.name}.{m2.name}): when the configured path names one file, the same trace file is appended to through two handles with separate buffers, so the lines do not reach the file in the order the records were emitted - run_space_start can land after the whole first run. A crash prefix of that file then has a pipeline_start with a launch key but no run_space_start, and finalize_launch answers `invalid` instead of the documented `partial` with the missing edge named"
+            R.check(not clash, rule, mod.rel, f"{c.name}.{m.name}", norm(st, 110), what, getattr(st, "lineno", 0), what_ok="no other handle on the same path")
+
+
+
 def run(repo: Repo, R: Report) -> None:
     try:
         _run(repo, R)
@@ -1865,6 +2176,7 @@ def _run(repo: Repo, R: Report) -> None:
     pure = _pure_methods(cls)
     config = _config_attrs(cls)
     model_classes = {c.name for c in repo.module(MODELS).tree.body if isinstance(c, ast.ClassDef)}
+    launch_key_fields: Dict[str, Set[str]] = {}
     for hid, (hmod, handler, hcall) in first_call.items():
         types = types_of[hid]
         qual = qualname_of(handler)
@@ -1879,6 +2191,10 @@ def _run(repo: Repo, R: Report) -> None:
                 if _is_record_read(n.value, rec) or any(isinstance(x, ast.Name) and x.id in derived for x in ast.walk(n.value)):
                     derived[n.targets[0].id] = n.value
         keys_of = registration_keys(fn, state, model_classes)
+        if types <= set(RS_EDGES):
+            kf = record_fields_read([derived[nm] for nm in sorted(keys_of.all) if nm in derived] + list(keys_of.key_exprs), rec)
+            for T_ in types:
+                launch_key_fields.setdefault(T_, set()).update(kf)
         for n in walk_no_nested(fn):
             targets: List[ast.AST] = []
             if isinstance(n, ast.Assign):
@@ -1944,12 +2260,20 @@ def _run(repo: Repo, R: Report) -> None:
         R.check(len(uses) <= 1 and not in_loop, r_hist, AGG, f"{CLS}.ingest_many", f"`{batch}` is traversed once", f"the batch parameter `{batch}` is read {len(uses)} times{' (inside a loop)' if in_loop else ''}: a one-shot iterator is exhausted by the first traversal and the records of the later one are never ingested, so the aggregate depends on how the caller supplies the same records", mfn.lineno, what_ok="single traversal")
     check_no_process_cells(R, r_hist, repo, cls)
 
+    # ---------------------------------------------------------------- D4 (producer / consumer interface)
+    r_key = R.rule("C13-D4-launch-key-agreement", "the fields the aggregator reads as the key of a launch aggregate carry, in the run_space_end record, the same values as in the run_space_start record of that launch: followed from the functions that build the records (constant record_type) through every function that only hands the value down, to the function that emits both edges - there the two values have the same origin (a parameter default that a call leaves out counts as the value)", 3)
+    check_launch_key_agreement(R, r_key, repo, launch_key_fields)
+    r_fh = R.rule("C13-D4-one-handle-per-trace-file", "a class that writes trace records keeps at most one open handle per file: two `open` sites kept in different write-through attributes never both open the configured path itself - the line order of a trace file is the emission order, which is what makes `run_space_start` / `pipeline_start` the first record of every crash prefix (the rows of the verdict table that are constrained)", 2)
+    check_one_handle_per_file(R, r_fh, repo)
+
     # ---------------------------------------------------------------- D2
     r_of = R.rule("C13-D2-order-free-verdicts", "completeness fields built from sets/dicts are sorted; finalisation writes into aggregator state (directly or through a local that aliases it) only idempotent min/max fall-backs", 5)
     r_tot = R.rule("C13-D2-total-on-partial-state", "a field of an aggregate that stays None until its record arrives is never ordered (<, >, sort / min / max key) without a None guard: every subset of records gets a verdict instead of a TypeError", 6)
     # the function that turns the stored canonical spec into the set of expected nodes: whoever receives
     # `<run>.pipeline_spec_canonical` on the finalisation path
     en = None
+    en_mod = agg_mod
+    agg_pkg = AGG.rsplit("/", 1)[0] + "/"
     clo = repo.call_graph_closure([(agg_mod, repo.func(AGG, f"{CLS}.finalize_run"))], stop=lambda m, n: m is not agg_mod)
     for m_, f_, _p in sorted(clo.values(), key=lambda t: getattr(t[1], "lineno", 0)):
         if m_ is not agg_mod:
@@ -1957,8 +2281,9 @@ def _run(repo: Repo, R: Report) -> None:
         for c in calls_in(f_):
             if any(isinstance(a, ast.Attribute) and a.attr == "pipeline_spec_canonical" for a in list(c.args) + [k.value for k in c.keywords]):
                 for m2_, t_ in repo.resolve_call(m_, c):
-                    if m2_ is agg_mod and isinstance(t_, FuncNode) and en is None:
-                        en = t_
+                    # the helper may live in any module of the aggregation package (imported back into the aggregator)
+                    if m2_.rel.startswith(agg_pkg) and isinstance(t_, FuncNode) and en is None:
+                        en, en_mod = t_, m2_
     if en is None:
         raise AnalysisError("finalize_run: no function receives <run>.pipeline_spec_canonical (expected nodes)")
     exp_helper = en.name
@@ -2188,4 +2513,4 @@ def _run(repo: Repo, R: Report) -> None:
     for x in ast.walk(en):
         if (isinstance(x, ast.AugAssign) and isinstance(x.op, (ast.BitAnd, ast.Sub, ast.BitXor))) or (isinstance(x, ast.Call) and isinstance(x.func, ast.Attribute) and x.func.attr in REMOVERS):
             cut_short = True
-    R.check(reads_uuid and collects and not cut_short, r_tab, AGG, qualname_of(en), "collects node_uuid of every canonical node", "expected-node extraction drops nodes", en.lineno)
+    R.check(reads_uuid and collects and not cut_short, r_tab, en_mod.rel, qualname_of(en), "collects node_uuid of every canonical node", "expected-node extraction drops nodes", en.lineno)
